@@ -348,6 +348,27 @@ PROPS["C05"] = {
     ],
 }
 
+PROPS["C19"] = {
+    "quick_secs": 10,
+    "thorough_secs": 240,
+    "totality": True,
+    "min_evaluations": 50000,
+    "technique": "construction-based monitor: well-formed ELF files are produced by the harness's own ELF writer (elfgen) from a random declarative description, loaded by loader::Elf at base 0 and base B and linked by loader::ElfLinker from files in a scratch directory; memory image, permissions, architecture, function entries, symbols, program entry and every relocated word are compared with what the description prescribes",
+    "rule": "single objects: ELF32/ELF64, little/big endian, EM_386/X86_64/MIPS/PPC/AARCH64, ET_EXEC/ET_DYN, 0-4 PT_LOAD segments (page-congruent or tightly packed, "
+            "empty, file-only, bss tails, all permission combinations) plus the dynamic-metadata segment, .symtab/.dynsym symbols of every type/binding (undefined, absolute, "
+            "value 0, two symbols at one address), PLT relocations, PT_INTERP, SONAME, user function entries; bases 0, page-aligned, unaligned and high. Link cases: x86 and "
+            "MIPS (both endiannesses) main program + 1-3 shared objects with a random DT_NEEDED graph; R_386_32/GLOB_DAT/JMP_SLOT/RELATIVE, MIPS local and global GOT entries "
+            "and R_MIPS_REL32, referring to symbols of the object itself, the main program and its dependencies. Non-trivial = at least one mapped segment / one symbol-relocated word; "
+            "distinct = (kind, architecture, object type, segment count, features).",
+    "level_text": "Sampled ELF descriptions; the expected answers are known by construction, the file bytes come from a writer that shares no code with the parser (goblin) or the loader.",
+    "level_note": "trusts harness/src/elfgen.rs (self-tests against its own reader); library bases are read from ElfLinker::loaded() (the placement policy is not part of the property); symbol names are unique across linked objects",
+    "assumptions": [
+        "link cases only reference symbols that are already loaded when the referring object is relocated (the object itself, the main program, its own DT_NEEDED closure)",
+        "R_386_32 words are generated with a zero addend",
+        "PPC little-endian files are not generated (the loader documents them as unsupported)",
+    ],
+}
+
 PROPS["C20"] = {
     "quick_secs": 2,
     "thorough_secs": 2,
